@@ -100,3 +100,26 @@ def _approx_transform(rp, st):
         cmp_lin("result.Sigma*Lambda", np.einsum("rab,rbc->rac", S, L), np.tile(np.eye(S.shape[-1])[None], (S.shape[0], 1, 1)))
         cmp_lin("result.ln_det_Sigma", np.asarray(res.ln_det_Sigma), np.linalg.slogdet(S)[1])
     return res, ("custom", None, chk)
+
+
+@binding("HetIntLogCondY")
+def _het_int_log_cond_y(rp, st):
+    a = st["a"]
+    c, p = rp.heap[a["i"]], rp.heap[a["j"]]
+    val = c.integrate_log_conditional_y(p, y=stack_q(a["y"]))
+    # degenerate geometry: the projected mean map of a noise direction is collinear with its gate weights, so that
+    # (a_i' L0 (y - M x - b), h_i(x)) is a singular Gaussian pair (recorded in the context for known-finding KF-4)
+    try:
+        Mm, Am, Wm = np.asarray(c.M)[0], np.asarray(c.A)[0], np.asarray(c.W)
+        L0 = np.linalg.inv(Am @ Am.T)
+        for i in range(Wm.shape[0]):
+            cv, w = Mm.T @ L0 @ Am[:, i], Wm[i, 1:]
+            if len(w) > 1 and abs(abs(cv @ w) - np.linalg.norm(cv) * np.linalg.norm(w)) < 1e-12 * max(1.0, np.linalg.norm(cv) * np.linalg.norm(w)):
+                rp.extra_ctx["collinear"] = True
+    except Exception:
+        pass
+
+    def chk(val, exp):
+        e = np.asarray([val_value(v) for v in exp["val"]], dtype=float)
+        cmp_lin("return", np.asarray(val, dtype=float).reshape(-1), e)
+    return None, ("custom", val, chk)
